@@ -172,3 +172,12 @@ CLAIMS["C21"] = (
     "from_basic round trip, from_basic of a product) against the schoolbook arithmetic of module Poly",
     "6/C21", TRUSTED + "; UExprPoly and multi-limb coefficients are not covered yet",
     "TLA+ transcription checked by TLC + schoolbook oracle in TLA+ + TLC trace validation")
+
+CLAIMS["C23"] = (
+    "model_checking",
+    "TLC enumerates pairs of polynomials over GF(p), p in {2,3,5,7}; every operation is validated against arithmetic "
+    "modulo p written by definition in module GF (schoolbook product, long division, Euclidean gcd, Horner), and "
+    "the square-free and full factorisations (gf_factor, gf_zassenhaus, gf_shoup, three randomised runs each) "
+    "against their contract: factors monic, irreducible (exhaustive search for monic divisors of degree <= deg/2), "
+    "distinct, product times leading coefficient equals the input",
+    "6/C23", TRUSTED, "TLA+ arithmetic mod p by definition + factorisation contracts + TLC trace validation")
